@@ -8,6 +8,10 @@ kname = sys.argv[2] if len(sys.argv) > 2 else 'Mastered'
 K = getattr(F, kname)()
 K.script = sys.argv[1]
 K.P = {'script': sys.argv[1]}
+if len(sys.argv) > 3:
+    import json as _j
+    for _k, _v in _j.loads(sys.argv[3]).items():
+        setattr(K, _k, _v)
 c = ConcCtx({})
 call = K.setup(c)
 import pycdlib
